@@ -556,6 +556,86 @@ def check_C14(run):
     return run.finish('fault_enumeration', cov)
 
 
+def check_C05(run):
+    """Byte integrity: (1) behaviours whose writes use every payload size class around the single-buffer
+    (4 KiB) and in-place I/O (80 KiB) thresholds and every metadata value are replayed with byte-for-byte
+    comparison on both runtime flavours; (2) the cases of PearlBytes (altered data bytes of a stored
+    record, index in memory / on disk / rebuilt with and without validation) are expanded to byte
+    positions and patterns on the real storage."""
+    q = Q(run)
+    se = store.StoreEngine(run)
+    run.build()
+    sizes = '{"z0", "z1", "s", "e4k-", "e4k", "e4k+", "e80k-", "e80k", "e80k+", "big"}'
+    suites = [
+        dict(name='sizes', consts=dict(Keys='{1}', MaxTs='1', Metas='{0, 1, 2}', Sizes=sizes), genlen=2 if q else 3,
+             acts=['write', 'close_active', 'restart'], restarts_set=store.restarts(gs=(True,), lazies=(False,), dmgs=('keep', 'lose')),
+             nkeys=1, sample=(1, 3) if q else (1, 2),
+             hcfgs=[dict(ks=4, bloom='small', group=8, rt='mt', wait=True), dict(ks=4, bloom='small', group=8, rt='ct', wait=True),
+                    dict(ks=1000, bloom='off', group=2, rt='mt', wait=True), dict(ks=32, bloom='odd', group=2, rt='ct', wait=True)]),
+    ]
+    saved = run.prop
+    for s in suites:
+        s = dict(s)
+        nkeys = s.pop('nkeys')
+        hc = s.pop('hcfgs')
+        r = se.generate(**s)
+        run.prop = 'C01'         # the byte comparison is part of the read observables
+        mm = se.replay(r['out'], hc, nkeys, tag='-' + s['name'])
+        run.prop = saved
+        os.remove(r['out'])
+        for rec in mm:
+            m = rec['mismatches'][0]
+            run.violation('C05', rec, 'value not returned byte-for-byte: %s after %s expected %s got %s (behaviour: %s)' % (
+                m['kind'], m['action'], json.dumps(m['expected'])[:120], json.dumps(m['got'])[:200], ' '.join(rec.get('sig', []))))
+    # (2) altered bytes
+    r = run.tlc('PearlBytes', 'SPECIFICATION BSpec\nINVARIANTS NeverServed Contained EmitBytesCase\nCHECK_DEADLOCK FALSE\n', 'bytes', workers=2, timeout=600)
+    if not r['ok']:
+        print(run.tlc_error_excerpt(r)[:3000])
+        raise ToolError('TLC failed on PearlBytes')
+    se.mc_states += r['distinct']
+    shards = min(NCPU, 8)
+    files = [open(os.path.join(run.work, 'bshard-%d.txt' % i), 'w') for i in range(shards)]
+    n = 0
+    for line in open(r['out'], errors='replace'):
+        if line.startswith('<<"BYTECASE"'):
+            files[n % shards].write(line)
+            n += 1
+    for f in files:
+        f.close()
+    procs = []
+    for i in range(shards):
+        out = os.path.join(run.work, 'bytes-%d.out' % i)
+        cmd = [os.path.join(BIN, 'bytesck')] + ([] if q else ['--dense'])
+        procs.append((subprocess.Popen(cmd, stdin=open(files[i].name), stdout=open(out, 'w'), stderr=open(out + '.err', 'w')), out))
+    cases = 0
+    for p, out in procs:
+        rc = p.wait()
+        ok = False
+        for line in open(out, errors='replace'):
+            if line.startswith('MISMATCH '):
+                rec = json.loads(line[9:])
+                m = rec['mismatches'][0]
+                run.violation('C05', rec, 'altered data bytes, case %s: %s' % (json.dumps(rec['case']), json.dumps(m)[:300]))
+            elif line.startswith('RESULT '):
+                res = json.loads(line[7:])
+                ok = True
+                cases += res['cases']
+                if res.get('sample') and len(run.samples) < 4:
+                    run.samples.append(res['sample'])
+        if rc != 0 or not ok:
+            raise ToolError('bytesck failed rc=%s (%s)' % (rc, out))
+    run.log('%d corruption cases expanded on the real storage' % cases)
+    cov = dict(evaluations=se.replayed + cases, distinct_nontrivial=se.distinct + cases, replayed_behaviours=se.replayed,
+               corruption_cases=cases, states=se.mc_states,
+               rule='(1) every generated behaviour writes values of the size classes 0, 1, small, 4 KiB threshold -1/0/+1, 80 KiB threshold '
+                    '-1/0/+1, 200 KiB with three metadata values and reads them back byte for byte (read, read_with, read_all + load), '
+                    'before and after close / restart, on both runtime flavours; (2) every PearlBytes case (index state x record position) '
+                    'with first / middle / last (thorough: every) byte of the data region x 1-bit, 8-bit and 32-bit patterns')
+    run.assumptions += ['CRC32C detects every burst of at most 32 bits: assumed, not modelled',
+                        'metadata bytes are compared on the round trip; altered metadata on disk is outside the property (no checksum covers it)']
+    return run.finish('fault_enumeration', cov)
+
+
 def check_C08(run):
     """Concurrent clients: deadlock freedom of the synchronisation skeleton (PearlConc, TLC) and
     trace validation of real concurrent executions against TraceConc."""
@@ -766,7 +846,7 @@ def check_C17(run):
     return run.finish('exploration', cov)
 
 
-CHECKS = {'C01': check_C01, 'C02': check_C02, 'C03': check_C03, 'C04': check_C04, 'C07': check_C07, 'C08': check_C08, 'C09': check_C09, 'C10': check_C10, 'C11': check_C11,
+CHECKS = {'C01': check_C01, 'C02': check_C02, 'C03': check_C03, 'C04': check_C04, 'C05': check_C05, 'C07': check_C07, 'C08': check_C08, 'C09': check_C09, 'C10': check_C10, 'C11': check_C11,
           'C12': check_C12, 'C13': check_C13, 'C14': check_C14, 'C15': check_C15, 'C16': check_C16, 'C17': check_C17}
 
 
